@@ -33,6 +33,7 @@ __CPROVER_ensures(G_sifts == __CPROVER_old(G_sifts) + 1 && G_sift_idx == idx)
 #endif
 
 #define INV_STATE(S) \
+  (S)._records.cleared = false; (S)._periodicTimers.cleared = false; \
   __CPROVER_assume(!(S)._records.present || ((S)._records.w.first == GID && TIME_OK((S)._records.w.second.tp))); \
   __CPROVER_assume(!(S)._periodicTimers.present || ((S)._periodicTimers.w.first == GID && (S)._periodicTimers.w.second.interval > 0 \
                    && (S)._periodicTimers.w.second.interval <= ((int64_t)1 << 61) && TIME_OK((S)._periodicTimers.w.second.nextExecution)));
@@ -214,6 +215,31 @@ void h_ts_stop(void)
     /* ST2 */ __CPROVER_assert(r.newState == LifecycleState_Stopped && S._lifecycleState == LifecycleState_Stopped && !S._running, "ST2 a successful stop() ends in Stopped with the run loop told to exit");
     /* ST3 */ __CPROVER_assert(!S._accepting, "ST3 refused rather than lost: a service that reports Stopped is not accepting - whatever its drain attempt did (incl. a timed-out drain, which re-enables accepting)");
     /* ST4 */ __CPROVER_assert(G_ts_cleanup_at == 0 || (G_ts_join_at == 0 ? !S._thread.joinable : G_ts_join_at < G_ts_cleanup_at), "ST4 descriptors are closed only after the service thread was joined");
+  }
+}
+
+/* reset(): the collect proofs rest on INV_HR ("a heap item whose record exists carries that record's time") and INV_U ("at most one heap item per id,
+ * ids are never reused"). reset() restarts the ids (_nextId = 0), so it has to leave NO heap item behind: a surviving item (e.g. of a timer cancelled but
+ * not yet due at stop()) would alias the id of a timer scheduled after the restart and run that timer's handler at the stale time - early.           */
+void h_ts_reset(void)
+{
+  TimerService S; IORA_TRUE = 1; GID = nondet_u64();
+  S._accepting = nondet_bool(); S._records.present = nondet_bool(); S._periodicTimers.present = nondet_bool(); S._records.cleared = false; S._periodicTimers.cleared = false;
+  __CPROVER_assume(S._lifecycleState >= LifecycleState_Created && S._lifecycleState <= LifecycleState_Reset && S._heap.n < ((size_t)1 << 60));
+  const int st0 = S._lifecycleState; const uint64_t next0 = S._nextId; const size_t hn0 = S._heap.n; const bool rp0 = S._records.present, pp0 = S._periodicTimers.present, acc0 = S._accepting;
+  iora_lcr r = TimerService_reset(&S);
+  IORA_CANARY("h_ts_reset: returns");
+  /* RS1 */ __CPROVER_assert(r.success == (st0 == LifecycleState_Stopped), "RS1 reset() succeeds exactly from Stopped");
+  if (!r.success) {
+    IORA_CANARY("h_ts_reset: refused");
+    /* RS2 */ __CPROVER_assert(S._lifecycleState == st0 && S._nextId == next0 && S._heap.n == hn0 && S._records.present == rp0 && S._periodicTimers.present == pp0 && !S._records.cleared && !S._periodicTimers.cleared,
+                               "RS2 a refused reset() changes nothing");
+  } else {
+    IORA_CANARY("h_ts_reset: done");
+    /* RS3 */ __CPROVER_assert(S._heap.n == 0 || S._nextId == next0, "RS3 INV_U/INV_HR re-established: if the ids restart, NO heap item survives reset() (a stale item would alias a future timer's id and run its handler at the stale time)");
+    /* RS4 */ __CPROVER_assert(S._records.cleared && !S._records.present && S._periodicTimers.cleared && !S._periodicTimers.present, "RS4 after reset() the record map and the periodic map are empty (every id)");
+    /* RS5 */ __CPROVER_assert(S._heap.n == 0 && S._nextId == 0 && S._lifecycleState == LifecycleState_Reset && r.newState == LifecycleState_Reset, "RS5 clean state: empty heap, ids restart, state Reset");
+    /* RS6 */ __CPROVER_assert(S._accepting == acc0, "RS6 reset() does not start accepting (only start()/initialize() does)");
   }
 }
 
